@@ -3,14 +3,6 @@ import Chartparse.Model.Regex
 namespace Chartparse.Rx
 open Chartparse
 
-/-- value of one `\d` character: offset in its ten-aligned block -/
-def digitVal (c : Nat) : Nat :=
-  match Gen.digitRanges.find? (fun r => r.1 ≤ c && c ≤ r.2) with
-  | some r => (c - r.1) % 10
-  | none => 0
-
-def intOf (ds : Str) : Nat := ds.foldl (fun acc c => acc * 10 + digitVal c) 0
-
 /-- decimal rendering, most significant digit first (`fuel` ≥ number of digits) -/
 def render : Nat → Nat → Str
   | 0, _ => []
